@@ -850,6 +850,42 @@ func evalPanicClause(env *SpecEnv, c Clause) (Term, error) {
 func (f *Frame) frameObligation(label string, ec *effContract, pre *SpecEnv, h0, h1 *Heap, pc Term, isPanic bool) {
 	vc := f.vc
 	if ec.modAll {
+		// `modifies *` with `keeps T`: the fields of every T object allocated at entry are unchanged
+		var goals []Term
+		var infos []string
+		alloc0 := h0.Comp(allocComp, SInt)
+		for _, k := range ec.keeps {
+			t, err := f.w.ResolveType(k, ec.scopePkg)
+			if err != nil {
+				f.fail("keeps %s: %v", k, err)
+				continue
+			}
+			stt, ok := t.Underlying().(*types.Struct)
+			if !ok {
+				f.fail("keeps %s: only struct types can be checked", k)
+				continue
+			}
+			so := f.w.Sorts.SortOf(t)
+			for i := 0; i < stt.NumFields(); i++ {
+				comp := fieldComp(so, stt.Field(i).Name())
+				cs := ArraySort(SInt, f.w.Sorts.SortOf(stt.Field(i).Type()))
+				t1, t0 := h1.Comp(comp, cs), h0.Comp(comp, cs)
+				if t1.S == t0.S {
+					continue
+				}
+				r := Term{"r!", SInt}
+				root := App("root!", SInt, r)
+				goals = append(goals, Forall([]Term{r}, Implies(And(Le(root, alloc0), Ne(r, IntLit(0)), Ne(root, IntLit(0))), Eq(Sel(t1, r), Sel(t0, r)))))
+				infos = append(infos, comp)
+			}
+		}
+		if len(goals) > 0 {
+			suffix := "keeps"
+			if isPanic {
+				suffix = "keeps-panic"
+			}
+			vc.Oblige(label, "frame", suffix, pc, And(goals...), "objects kept unchanged: "+strings.Join(infos, ", "))
+		}
 		return
 	}
 	// collect allowed targets per component
